@@ -1,11 +1,39 @@
 use super::SMap;
-use crate::lterm::LTerm;
+use crate::compound::CompoundObject;
+use crate::lterm::{LTerm, LTermInner};
 use crate::relation::diseq::DisequalityConstraint;
 use crate::state::constraint::Constraint;
 use crate::engine::Engine;
 use crate::state::User;
 use std::collections::HashSet;
 use std::rc::Rc;
+
+/// True if `t` refers to a variable that the reifying substitution `r` does not map to a
+/// reified any-variable.
+fn mentions_unreified<U, E>(r: &SMap<U, E>, t: &LTerm<U, E>) -> bool
+where
+    U: User,
+    E: Engine<U>,
+{
+    let t = r.walk(t);
+    match t.as_ref() {
+        LTermInner::Var(_, _) => !t.is_any(),
+        LTermInner::Cons(head, tail) => mentions_unreified(r, head) || mentions_unreified(r, tail),
+        LTermInner::Compound(compound) => compound_mentions_unreified(r, compound.as_ref()),
+        _ => false,
+    }
+}
+
+fn compound_mentions_unreified<U, E>(r: &SMap<U, E>, object: &dyn CompoundObject<U, E>) -> bool
+where
+    U: User,
+    E: Engine<U>,
+{
+    object.children().any(|child| match child.as_term() {
+        Some(term) => mentions_unreified(r, term),
+        None => compound_mentions_unreified(r, child),
+    })
+}
 
 #[derive(Derivative)]
 #[derivative(Debug(bound="U: User"), Clone(bound="U: User"))]
@@ -33,10 +61,13 @@ where
         let mut purified_cstore = ConstraintStore::new();
         for constraint in self.0.into_iter() {
             if let Some(tree_constraint) = constraint.downcast_ref::<DisequalityConstraint<U, E>>() {
+                // A disequality that refers to a variable which is not part of the answer (not
+                // reified in `r`) can always be satisfied by that variable and says nothing about
+                // the answer.
                 if tree_constraint
                     .smap_ref()
                     .iter()
-                    .any(|(u, _)| r.is_anyvar(u))
+                    .all(|(u, v)| !mentions_unreified(r, u) && !mentions_unreified(r, v))
                 {
                     purified_cstore.insert(constraint);
                 }
